@@ -199,7 +199,16 @@ static void abort_report(const char* cls)
     (void)!::write(g_ctx->out_fd, d, (size_t)n);
     _exit(0);
 }
-static void on_alarm(int) { abort_report("hang-watchdog"); }
+static void on_alarm(int)
+{
+    if (g_shared && !g_shared->in_call) {
+        static const char msg[] = "V\tHARNESS\tharness-hang\tharness-hang\t-1\tthe harness itself did not finish within its time limit\n";
+        if (g_ctx)
+            (void)!::write(g_ctx->out_fd, msg, sizeof msg - 1);
+        _exit(0);
+    }
+    abort_report("hang-watchdog");
+}
 static void on_ceiling() { abort_report("cost-ceiling"); }
 static void on_exit_in_call()
 {
@@ -253,7 +262,7 @@ CallResult RunCtx::call(Session& s, const CallSpec& c, int stepno, bool monitors
         g_shared->in_call = 1;
     alarm((unsigned)watchdog_s);
     CallResult r = run_call(s, c, stepno);
-    alarm(0);
+    alarm(300);
     if (g_shared)
         g_shared->in_call = 0;
     count("calls");
@@ -428,6 +437,7 @@ static Child spawn(const RunSpec& spec)
         ProfileFn fn = find_profile(spec.profile);
         if (!fn)
             _exit(6);
+        alarm(300);  // outside calls this catches a hang of the harness itself (reported as such)
         try {
             fn(ctx);
         } catch (const std::exception& e) {
@@ -546,7 +556,8 @@ static RunResult reap(Child& c)
             v.detail = kind + " during " + desc + " hint=" + hint;
         } else if (WIFSIGNALED(st)) {
             v.cls = "signal";
-            v.signature = "signal=" + std::to_string(WTERMSIG(st)) + "|" + hint;
+            // without a sanitizer there are no frames: the call (entry point, back end, syntax) identifies the site
+            v.signature = "signal=" + std::to_string(WTERMSIG(st)) + "|" + desc.substr(0, desc.find(" bytes="));
             v.detail = "signal " + std::to_string(WTERMSIG(st)) + " during " + desc;
             if (!c.shared->in_call) {
                 v.property = "HARNESS";
